@@ -20,7 +20,7 @@ From Coq Require Import List NArith ZArith Bool Permutation.
 From PM Require Import Base.Bytes Base.Outcome Gen.GenRfp Model.Redfish Spec.RedfishSpec Model.RedfishView
   Proofs.RedfishBase Proofs.RedfishSteps Proofs.RedfishSingle Proofs.RedfishMgmt Proofs.RedfishRules Proofs.RedfishTheorems
   Proofs.RedfishPhased Proofs.RedfishFaults Proofs.RedfishReach Proofs.RedfishExamples
-  Proofs.RedfishInv Proofs.RedfishLive Proofs.RedfishDrain Proofs.RedfishStart Proofs.RedfishMulti.
+  Proofs.RedfishInv Proofs.RedfishLive Proofs.RedfishDrain Proofs.RedfishStart Proofs.RedfishMulti Proofs.RedfishSmall.
 Import ListNotations.
 
 (* ------------------------------------------------------------------------------------------------------------------
@@ -333,6 +333,25 @@ Print Assumptions C19_sequence.
    ancestor target decides -- the spec orders targets by depth for that reason).  Until then the text of several-target
    lines rests on the R-RFP correspondence and the small-scope sweep of props/C19.py, with the extracted
    RedfishSpec.expected as the monitor; the example below is a computation, not the theorem. *)
+(* C19_rules_partial: the OPEN statement decided by computation inside Coq (vm_compute over the model and Spec/RedfishSpec.v) on a
+   small scope: the three example states (three levels R -> M -> L, second root S -> T below a failing host; all off / R,M on /
+   R,M,L on) x stat/on/off x EVERY target list of length 1-2 over the five plugs and one unknown name and every list of length 3
+   over R,M,L,T (all orders, repetitions), under a slow release schedule: Ok, prompt, the printed lines are a permutation of
+   RedfishSpec.expected, the status of every plug is the expected one.  What is missing for C19_rules: the same for arbitrary
+   tables, states and target lists (see above). *)
+Theorem C19_rules_partial : forall st c ts sched,
+  In st scope_states -> In c scope_cmds -> In ts scope_lists -> In sched scope_scheds ->
+  in_domain st c ts = true /\
+  exists st', run_line ex_hlc st (line_of c ts) sched = Ok (st', false) /\ idle st' = true /\
+              Permutation (out_text st') (fst (expected_of st c ts)) /\
+              forall p, In p (s_tab st) -> st_get (statmap_of (s_tstat st')) (p_name p) = st_get (snd (expected_of st c ts)) (p_name p).
+Proof. exact rules_small_scope. Qed.
+Example C19_rules_partial_nonvacuous :
+  length scope_lists = 106%nat /\ In [bs "L"; bs "R"; bs "T"]%string scope_lists /\ In [bs "nosuch"; bs "M"]%string scope_lists /\
+  line_of COff [bs "L"; bs "R"; bs "T"]%string = bs "off L,R,T"%string.
+Proof. split; [vm_compute; reflexivity|]. split; [vm_compute; tauto|]. split; [vm_compute; tauto | vm_compute; reflexivity]. Qed.
+Print Assumptions C19_rules_partial.
+
 Example C19_rules_several_targets_computed :
   (* three levels, mixed failing hosts, `off R,L,T` with R, M, L on and a slow release schedule: L is answered through
      R's own off (ok), T is refused because S's host fails, R is switched off and takes M and L along *)
